@@ -140,6 +140,11 @@ func init() {
 	// vDepthReset / vDepthMax: interpreter call-stack depth relative to the caller (C16)
 	h["vDepthReset"] = func(fr *frame, args []value) value { cur.maxDepth = fr.depth; cur.depthBase = fr.depth; return nil }
 	h["vDepthMax"] = func(fr *frame, args []value) value { return cur.maxDepth - cur.depthBase }
+	// vPar(maxPreempt, f1, f2): run f1 and f2 as two logical threads, interleaved at synchronisation operations
+	h["vPar"] = func(fr *frame, args []value) value {
+		cur.runPar(fr, int(asInt64(args[0])), args[1], args[2])
+		return nil
+	}
 	h["vThread"] = func(fr *frame, args []value) value {
 		cur.thread = int(asInt64(args[0]))
 		return nil
@@ -215,8 +220,10 @@ func init() {
 			return mkStr(cp)
 		},
 		"(*strings.Builder).copyCheck": func(fr *frame, args []value) value { return nil },
-		"sync/atomic.LoadUint32":      func(fr *frame, args []value) value { cur.access(args[0].(*value), false, true); return *args[0].(*value) },
+		"sync/atomic.LoadUint32":      func(fr *frame, args []value) value { cur.schedPoint(); cur.access(args[0].(*value), false, true); return *args[0].(*value) },
 		"sync/atomic.StoreUint32": func(fr *frame, args []value) value {
+			cur.schedPoint()
+			cur.schedPoint()
 			p := args[0].(*value)
 			cur.access(p, true, true)
 			cur.logStore(p)
@@ -240,6 +247,7 @@ func init() {
 			return false
 		},
 		"(*sync.Pool).Get": func(fr *frame, args []value) value {
+			cur.schedPoint()
 			p := args[0].(*value)
 			if items := cur.pools[p]; len(items) > 0 {
 				it := items[len(items)-1]
@@ -268,12 +276,12 @@ func init() {
 			cur.pools[p] = append(cur.pools[p], args[1])
 			return nil
 		},
-		"(*sync.Mutex).Lock":      func(fr *frame, args []value) value { cur.lockOp(args[0].(*value), "Lock"); return nil },
-		"(*sync.Mutex).Unlock":    func(fr *frame, args []value) value { cur.lockOp(args[0].(*value), "Unlock"); return nil },
-		"(*sync.RWMutex).Lock":    func(fr *frame, args []value) value { cur.lockOp(args[0].(*value), "Lock"); return nil },
-		"(*sync.RWMutex).Unlock":  func(fr *frame, args []value) value { cur.lockOp(args[0].(*value), "Unlock"); return nil },
-		"(*sync.RWMutex).RLock":   func(fr *frame, args []value) value { cur.lockOp(args[0].(*value), "RLock"); return nil },
-		"(*sync.RWMutex).RUnlock": func(fr *frame, args []value) value { cur.lockOp(args[0].(*value), "RUnlock"); return nil },
+		"(*sync.Mutex).Lock": func(fr *frame, args []value) value { cur.schedPoint(); cur.parLock(args[0].(*value), "Lock"); cur.lockOp(args[0].(*value), "Lock"); return nil },
+		"(*sync.Mutex).Unlock": func(fr *frame, args []value) value { cur.schedPoint(); cur.parLock(args[0].(*value), "Unlock"); cur.lockOp(args[0].(*value), "Unlock"); return nil },
+		"(*sync.RWMutex).Lock": func(fr *frame, args []value) value { cur.schedPoint(); cur.parLock(args[0].(*value), "Lock"); cur.lockOp(args[0].(*value), "Lock"); return nil },
+		"(*sync.RWMutex).Unlock": func(fr *frame, args []value) value { cur.schedPoint(); cur.parLock(args[0].(*value), "Unlock"); cur.lockOp(args[0].(*value), "Unlock"); return nil },
+		"(*sync.RWMutex).RLock": func(fr *frame, args []value) value { cur.schedPoint(); cur.parLock(args[0].(*value), "RLock"); cur.lockOp(args[0].(*value), "RLock"); return nil },
+		"(*sync.RWMutex).RUnlock": func(fr *frame, args []value) value { cur.schedPoint(); cur.parLock(args[0].(*value), "RUnlock"); cur.lockOp(args[0].(*value), "RUnlock"); return nil },
 		"(*sync.Once).Do": func(fr *frame, args []value) value {
 			p := args[0].(*value)
 			if cur.onceDone[p] {
@@ -579,6 +587,22 @@ func init() {
 		return iface{}
 	}
 	harnessExternals["vFileClosed"] = func(fr *frame, args []value) value { return cur.fileClosed }
+	// (*os.File).Stat / os.Stat / os.Lstat: the harness registers an fs.FileInfo describing the modelled
+	// file (vFileInfo); Stat returns it, or fails with an arbitrary error (nondeterministic choice).
+	harnessExternals["vFileInfo"] = func(fr *frame, args []value) value {
+		cur.fileInfo = args[0]
+		return nil
+	}
+	stat := func(fr *frame, args []value) value {
+		cur.stubsUsed["os.Stat/(*os.File).Stat"] = true
+		if cur.fileInfo == nil || cur.ChooseN(2) == 1 {
+			return tuple{iface{}, iface{fr.i.runtimeErrorString, "stat: stub error"}}
+		}
+		return tuple{cur.fileInfo, iface{}}
+	}
+	externals["(*os.File).Stat"] = stat
+	externals["os.Stat"] = stat
+	externals["os.Lstat"] = stat
 }
 
 // sync/atomic: the remaining Load/Store/Swap/CompareAndSwap/Add functions on a cell (the executor is
@@ -598,11 +622,13 @@ func init() {
 			}
 		}
 		set("sync/atomic.Load"+k.name, func(fr *frame, args []value) value {
+			cur.schedPoint()
 			p := args[0].(*value)
 			cur.access(p, false, true)
 			return *p
 		})
 		set("sync/atomic.Store"+k.name, func(fr *frame, args []value) value {
+			cur.schedPoint()
 			p := args[0].(*value)
 			cur.access(p, true, true)
 			cur.logStore(p)
@@ -610,6 +636,7 @@ func init() {
 			return nil
 		})
 		set("sync/atomic.Swap"+k.name, func(fr *frame, args []value) value {
+			cur.schedPoint()
 			p := args[0].(*value)
 			cur.access(p, true, true)
 			old := *p
@@ -618,6 +645,7 @@ func init() {
 			return old
 		})
 		set("sync/atomic.CompareAndSwap"+k.name, func(fr *frame, args []value) value {
+			cur.schedPoint()
 			p := args[0].(*value)
 			cur.access(p, true, true)
 			if equals(k.t, *p, args[1]) {
@@ -640,6 +668,7 @@ func init() {
 	// atomic.Value: struct{ v any }
 	valCell := func(a value) *value { return &(*a.(*value)).(structure)[0] }
 	externals["(*sync/atomic.Value).Load"] = func(fr *frame, args []value) value {
+		cur.schedPoint()
 		c := valCell(args[0])
 		cur.access(args[0].(*value), false, true)
 		if it, ok := (*c).(iface); ok {
@@ -648,6 +677,7 @@ func init() {
 		return iface{}
 	}
 	externals["(*sync/atomic.Value).Store"] = func(fr *frame, args []value) value {
+		cur.schedPoint()
 		cur.access(args[0].(*value), true, true)
 		c := valCell(args[0])
 		cur.logStore(c)
@@ -655,6 +685,7 @@ func init() {
 		return nil
 	}
 	externals["(*sync/atomic.Value).Swap"] = func(fr *frame, args []value) value {
+		cur.schedPoint()
 		cur.access(args[0].(*value), true, true)
 		c := valCell(args[0])
 		old := *c
@@ -700,6 +731,7 @@ func init() {
 		return m
 	}
 	externals["(*sync.Map).Load"] = func(fr *frame, args []value) value {
+		cur.schedPoint()
 		cur.stubsUsed["sync.Map"] = true
 		if e, ok := tbl(args[0].(*value))[smKey(args[1])]; ok {
 			return tuple{e[1], true}
@@ -707,11 +739,13 @@ func init() {
 		return tuple{iface{}, false}
 	}
 	externals["(*sync.Map).Store"] = func(fr *frame, args []value) value {
+		cur.schedPoint()
 		cur.stubsUsed["sync.Map"] = true
 		tbl(args[0].(*value))[smKey(args[1])] = [2]value{args[1], args[2]}
 		return nil
 	}
 	externals["(*sync.Map).LoadOrStore"] = func(fr *frame, args []value) value {
+		cur.schedPoint()
 		cur.stubsUsed["sync.Map"] = true
 		m := tbl(args[0].(*value))
 		k := smKey(args[1])
@@ -722,10 +756,12 @@ func init() {
 		return tuple{args[2], false}
 	}
 	externals["(*sync.Map).Delete"] = func(fr *frame, args []value) value {
+		cur.schedPoint()
 		delete(tbl(args[0].(*value)), smKey(args[1]))
 		return nil
 	}
 	externals["(*sync.Map).LoadAndDelete"] = func(fr *frame, args []value) value {
+		cur.schedPoint()
 		m := tbl(args[0].(*value))
 		k := smKey(args[1])
 		if e, ok := m[k]; ok {
@@ -735,6 +771,7 @@ func init() {
 		return tuple{iface{}, false}
 	}
 	externals["(*sync.Map).Range"] = func(fr *frame, args []value) value {
+		cur.schedPoint()
 		m := tbl(args[0].(*value))
 		keys := make([]string, 0, len(m))
 		byS := map[string]syncMapKey{}
